@@ -29,11 +29,11 @@ CHECKS = {
    note="Crash model: whole-object atomic requests, prefix of the client's mutation sequence takes effect. Concurrent node PUTs of one flush make the prefix a sample of 'k of them landed'. Garbage nodes are allowed."),
  "C14": dict(level="fault_enumeration", design="§4 C14",
    technique="runtime monitoring with fault injection: a failing (once/persistent) or deadline-blocked request at every request position of a target statement; result compared with the fault-free run; liveness watchdog on logical quiescence; recovery probes",
-   text="For 13 kinds of target statement (opens with merge, scans, lookups, writes, commits, refresh, changes, vacuum) every request position up to 60 is faulted with a single error, a persistent error and (3 positions) a request blocking until the connection's deadline; each run must give an error or exactly the fault-free result, acknowledged writes must be visible to a fresh open afterwards, the process must survive, the statement must return, and the same and a new connection must work again after the fault clears.",
+   text="For 13 kinds of target statement (opens with merge, scans, lookups, writes incl. the REAL twin of stored INTEGER keys, commits, refresh, changes, vacuum) every request position up to 60 is faulted with a single error, a persistent error and (3 positions) a request blocking until the connection's deadline; each run must give an error or exactly the fault-free result, acknowledged writes must be visible to a fresh open afterwards, the process must survive, the statement must return, the connection's own un-refreshed view must show no trace of a failed statement, follow-up writes on that connection must publish complete versions that lose nothing, and the same and a new connection must work again after the fault clears.",
    note="Transport fault = non-retryable request error; deadline fault = request blocks until the context is done (1-2 s). Hang verdict is logical: no request in flight and none for 30 s. NoSuchKey is not treated as a fault."),
  "C09": dict(level="exploration", design="§4 C09",
    technique="runtime monitoring: dump equality across vacuum (same/fresh/historic opens), independent bucket walk of every retained version, crash injection after every mutating request of sampled vacuums, virtual clock through hook H3",
-   text="Histories built to share content-addressed nodes between old and new versions (insert-then-delete, revert, delete-all, earlier vacuums, merges) are vacuumed with cutoffs before/at/between/after the version stamps and delete times; rows through the same connection, a fresh connection and every earlier version created at or after the cutoff must be unchanged, every version still listed must reach only existing decodable nodes, later writes must work; one case in three repeats the vacuum with a crash after every mutating request and checks the recovery opens.",
+   text="Histories built to share content-addressed nodes between old and new versions (insert-then-delete, revert, delete-all, earlier vacuums, merges) are vacuumed with cutoffs before/at/between/after the version stamps and delete times; rows through the same connection, a fresh connection and every earlier version created at or after the cutoff must be unchanged, every version still listed must reach only existing decodable nodes, later writes must work; half of the cases let write times lag behind the version clock so that markers are purged while all versions are retained, then purge a transient key and run a final vacuum with a cutoff after everything, re-applying all oracles; one case in three repeats the vacuum with a crash after every mutating request and checks the recovery opens.",
    note="Creation time = the stamp in the version object (handle's last open/refresh). The vacuuming handle has merged everything (vacuum next to unmerged forks older than the cutoff is documented as unsafe). After a crash, version objects the interrupted vacuum was about to remove are not counted as retained."),
  "C10": dict(level="exploration", design="§4 C10",
    technique="runtime monitoring: reference retention rule over the recorded version DAG and decoded delete stamps vs the bucket listing after vacuum; idempotence by listing equality; late-merge resurrection probe",
@@ -41,7 +41,7 @@ CHECKS = {
    note="The rule is evaluated on the DAG including the version the vacuum itself commits; garbage nodes no version ever referenced are not demanded to go; boundaries are probed with cutoffs equal to recorded stamps."),
  "C05": dict(level="exploration", design="§4 C05",
    technique="runtime monitoring: native shadow table inside the same SQLite transaction, bucket listing before/after, request-log counting of version PUTs, decoded stamps per transaction, injected storage errors in COMMIT",
-   text="Programs of 15-45 transactions (failing statements, in-transaction reads, COMMIT / ROLLBACK / COMMIT hitting an injected storage error) on trees of 1-4 levels including small sparse ones: rows and root/ listing after any rollback must equal those before BEGIN, committing transactions write exactly one version object (none when nothing changed), all stamps assigned by one transaction are one value (or the explicit write_time), and the connection is usable after a failed commit.",
+   text="Programs of 15-45 transactions (failing statements, in-transaction reads, COMMIT / ROLLBACK / COMMIT hitting an injected storage error) on trees of 1-4 levels including small sparse ones: rows and root/ listing after any rollback must equal those before BEGIN, committing transactions write exactly one version object (none when nothing changed), all stamps assigned by one transaction - also across a second s3db table that joins it - are one value inside the BEGIN..COMMIT bracket (or the explicit write_time), the table is re-opened with another entries_per_node in half of the programs, and the connection is usable after a failed commit.",
    note="Multi-row statement atomicity inside explicit transactions is not demanded (no savepoints). Visibility to other openers at each request boundary is C04's enumeration. Trusts native SQLite as the shadow."),
  "C13": dict(level="exploration", design="§4 C13",
    technique="runtime monitoring: online assertion inside the instrumented store (no PUT/DELETE from a handle whose table was opened readonly) + dump stability across refused writes",
@@ -81,7 +81,7 @@ CHECKS = {
    note="Trusts SQLite's comparison as the reference order; NaN not generated (SQLite binds it as NULL); cross-writer twins (two writers inserting INT n and REAL n.0 concurrently) are not generated."),
  "C16": dict(level="exploration", design="§4 C16",
    technique="runtime monitoring: independent offline decoder over the bucket after every commit + online immutability assertion in the instrumented store + cache-less re-read",
-   text="Random write-heavy histories on the real extension (1-3 writers, all branch factors, transactions, rollbacks, merges); after every acknowledged commit the monitors decode the committed version from the bucket with an independent protobuf/JSON reader (links, order, size, height), compare it and a cache-less read-only handle's scan with the writer's own scan, assert name->bytes immutability online and count PUTs of no-op commits. Exploration is the right level: the property quantifies over histories, which can only be sampled.",
+   text="Random write-heavy histories on the real extension (1-3 writers, all branch factors, transactions, rollbacks, merges); after every acknowledged commit the monitors decode the committed version from the bucket with an independent protobuf/JSON reader (links, order, size, height), compare every decoded entry (values, modification/status/column times, delete flags, tombstones) with the writer's in-memory tree and a cache-less read-only handle's scan with the writer's own scan, assert name->bytes immutability online, count PUTs of no-op commits, let single PUTs of commits fail now and then, and have a separate OS process read the final bucket. Exploration is the right level: the property quantifies over histories, which can only be sampled.",
    note="Trusts the in-memory object store (S3 whole-object atomicity), SQLite, and the generated proto package used by the decoder. Cache-on multi-level cases are covered by known finding D19."),
 }
 
